@@ -136,7 +136,12 @@ func (reg *Registry) Make(c ValCase) (Object, Item, error) {
 	if c.Mut > 0 && !strings.HasSuffix(fmt.Sprintf("%T", obj), "TLItemImpl") {
 		m := &mutator{r: NewRnd(c.Seed^0xabcdef, 0), budget: c.Mut, nan: c.NaN}
 		leaves := m.collect(reflect.ValueOf(obj))
+		maps := collectStringKeyMaps(reflect.ValueOf(obj))
 		for i := 0; i < c.Mut && len(leaves) > 0; i++ {
+			if len(maps) > 0 && m.r.next()%4 == 0 {
+				m.rekey(maps[int(m.r.next()%uint64(len(maps)))]) // map-backed dictionaries: give one entry a special key
+				continue
+			}
 			m.mutateLeaf(leaves[int(m.r.next()%uint64(len(leaves)))])
 		}
 	}
